@@ -40,7 +40,7 @@ def gen_cases(tier: str, seed: int) -> list[dict]:
     rng = random.Random(seed)
     names = example_names()
     logics = QUICK_LOGICS if tier == 'quick' else LOGICS
-    n = 150 if tier == 'quick' else 3000
+    n = 182 if tier == 'quick' else 3032
     cases = []
     seen = set()
     # a fixed core: every option combination on a branching, a modal and a quantified argument
@@ -57,6 +57,12 @@ def gen_cases(tier: str, seed: int) -> list[dict]:
             for o in (OPTS if lg in ('CPL', 'K', 'CFOL', 'FDE', 'S4', 'GO', 'K3WQ') else OPTS[:1]):
                 cases.append(dict(logic=lg, arg=a, opts=dict(o)))
                 seen.add((lg, a, o['is_group_optim'], o['is_rank_optim'], None))
+    # the trunk holds EXACTLY the premises and the conclusion node, in order: repeated premises, a premise that is
+    # the negation of the conclusion, the conclusion among the premises
+    for lg in ('CPL', 'CFOL', 'K', 'S5', 'FDE', 'K3', 'GO', 'KFDE'):
+        for spec in (dict(premises=['a', 'a'], conclusion='b'), dict(premises=['Na'], conclusion='a'),
+                     dict(premises=['Kab', 'a', 'Kab'], conclusion='Kab'), dict(premises=['NNa', 'Na'], conclusion='Na')):
+            cases.append(dict(logic=lg, arg=spec, opts=dict(OPTS[0])))
     while len(cases) < n:
         lg = rng.choice(logics)
         a = rng.choice(names)
